@@ -227,7 +227,7 @@ func (w *World) performNew(o *op, now time.Duration) {
 }
 
 func (ep *Endpoint) readReleasable(o *op, now time.Duration) bool {
-	if o.fault != nil && o.fault.Class != "stall" {
+	if o.fault != nil && o.fault.Class != "stall" && o.fault.Class != "fataldata" {
 		return true
 	}
 	if ep.SrcClosed > 0 {
@@ -372,6 +372,28 @@ func (ep *Endpoint) performRead(w *World, o *op, now time.Duration) {
 			w.fire(o, "fatal")
 			w.Log.add(now, ep.Actor, "read", "FAULT fatal")
 			finish(0, w.sentinel(o), "fault:fatal")
+			return
+		case "fataldata":
+			// the read hands over bytes AND reports a failure in the same call (what a capture handle does
+			// when it has a frame but cannot strip its link header): the next packet if one is waiting,
+			// else a few bytes of rubbish. The failure is what counts.
+			w.stat("fault.read.fataldata")
+			w.fire(o, "fatal")
+			n := copy(o.buf, []byte{0x45, 0, 0, 24, 0, 0, 0, 0, 9, 250, 0, 0, 192, 0, 2, 200, 192, 0, 2, 201, 1, 2, 3, 4})
+			tag := "rubbish"
+			if len(ep.queue) > 0 {
+				id := ep.queue[0]
+				p := w.Pkts[id]
+				ep.queue = ep.queue[1:]
+				n = copy(o.buf, p.Bytes)
+				pe := &p.Ep[ep.Idx]
+				pe.Read, pe.ReadAt, pe.ReadSeq = true, now, w.Seq
+				rec.Pkt = id
+				tag = "pkt" + strconv.Itoa(id)
+				w.stat("fault.read.fataldata.with-packet")
+			}
+			w.Log.add(now, ep.Actor, "read", "FAULT fatal+data "+tag)
+			finish(n, w.sentinel(o), "fault:fatal")
 			return
 		case "deadline":
 			w.stat("fault.read.deadline")
